@@ -18,9 +18,11 @@ Definition I : W.list_iface := W.mk_list_iface (list Z)
   (fun l vs => (al_add vs l, tt))          (* Add(values...) *)
   (fun _ => ([], tt))                      (* Clear() *)
   (fun l => zlen l =? 0)                   (* Empty() *)
+  (fun _ d => (d, false))                  (* FromJSON(data): placeholder codec (bytes = the element list); see *JsonProofs.v *)
   (fun l i => opt_pair (al_get i l))       (* Get(i) *)
   (fun l i => (al_remove i l, tt))         (* Remove(i) *)
   (fun l => zlen l)                        (* Size() *)
+  (fun l => (l, false))                    (* ToJSON(): placeholder codec *)
   (fun l => l).                            (* Values() *)
 
 Notation content s := (W.list_ I s).
@@ -29,7 +31,7 @@ Module Names.
 Import Coq.Strings.String.
 (* OBLIGATION *)
 Theorem translated_functions :
-  W.translated = ["Clear"; "Dequeue"; "Empty"; "Enqueue"; "Peek"; "Size"; "Values"; "withinRange"]%string
+  W.translated = ["Clear"; "Dequeue"; "Empty"; "Enqueue"; "FromJSON"; "MarshalJSON"; "Peek"; "Size"; "ToJSON"; "UnmarshalJSON"; "Values"; "withinRange"]%string
   /\ W.skipped = ["New"; "String"]%string /\ W.not_selected = [].
 Proof. repeat split. Qed.
 Print Assumptions translated_functions.
